@@ -43,7 +43,7 @@ def run(ctx):
     cpath = os.path.join(ctx.tmp, "c20cases.ndjson")
     vf.write_ndjson(cpath, cases)
     out = os.path.join(ctx.tmp, "c20.ndjson")
-    ctx.run_vh(["ord", "-cases", cpath, "-out", out, "-n", ctx.pick(120, 3000)], timeout=3000)
+    ctx.run_vh(["ord", "-cases", cpath, "-out", out, "-n", ctx.pick(120, 12000)], timeout=3000)
     events = vf.read_ndjson(out)
     os.unlink(out)
     judge(ctx, events)
